@@ -32,6 +32,9 @@ type zzSchema struct {
 	Props      []zzProp
 	AddlFalse  bool
 	Ref        int // 1 + index of the named schema this node refers to ($ref, possibly recursive); 0: none
+	Format     string      // "uint64": a string-formatted unsigned integer
+	Addl       *zzSchema   // additionalProperties: <schema> (map part of an object)
+	OneOf      []*zzSchema // sum type: variants are mutually exclusive by construction (distinct JSON types, or objects each with a required member of its own)
 }
 
 type zzProp struct {
@@ -116,6 +119,23 @@ func (b *builder) intTok() aval {
 	}
 }
 
+// uintStrTok: a string-formatted unsigned integer of one or two digits (the helpers' behaviour on every
+// uint64 - in particular beyond 2^63 - is C13's subject: twenty-digit values inside a whole generated decoder
+// did not close here).
+func (b *builder) uintStrTok() aval {
+	b.lit(`"`)
+	start := len(b.out)
+	if b.p.next(2) == 0 {
+		b.digit(false)
+	} else {
+		b.digit(true)
+		b.digit(false)
+	}
+	content := append([]byte(nil), b.out[start:]...)
+	b.lit(`"`)
+	return aval{kind: kStr, str: content}
+}
+
 func (b *builder) strTok() aval {
 	b.lit(`"`)
 	var content []byte
@@ -142,6 +162,9 @@ func (b *builder) value(s *zzSchema, wrongType bool) aval {
 		defer func() { b.depth-- }()
 		s = zzSchemas[s.Ref-1]
 	}
+	if len(s.OneOf) > 0 {
+		return b.value(s.OneOf[b.p.next(len(s.OneOf))], wrongType)
+	}
 	if wrongType {
 		if s.Type == "string" {
 			return b.intTok()
@@ -156,6 +179,9 @@ func (b *builder) value(s *zzSchema, wrongType bool) aval {
 	case "integer":
 		return b.intTok()
 	case "string":
+		if s.Format == "uint64" {
+			return b.uintStrTok()
+		}
 		if len(s.Enum) > 0 && b.p.next(2) == 0 {
 			e := s.Enum[b.p.next(len(s.Enum))]
 			b.lit(`"` + e + `"`)
@@ -232,6 +258,19 @@ func (b *builder) value(s *zzSchema, wrongType bool) aval {
 			keys = append(keys, pr.Name)
 			vals = append(vals, v)
 		}
+		if s.Addl != nil {
+			nx := b.p.next(3)
+			for i := 0; i < nx; i++ {
+				if !first {
+					b.lit(",")
+				}
+				first = false
+				name := []string{"x0", "x1"}[i]
+				b.lit(`"` + name + `":`)
+				keys = append(keys, name)
+				vals = append(vals, b.value(s.Addl, false))
+			}
+		}
 		if mut == 4 {
 			if !first {
 				b.lit(",")
@@ -277,6 +316,13 @@ func refValid(s *zzSchema, v aval) bool {
 	if s.Ref != 0 {
 		s = zzSchemas[s.Ref-1]
 	}
+	if len(s.OneOf) > 0 {
+		ok := false
+		for _, alt := range s.OneOf {
+			ok = zz.Or(ok, refValid(alt, v))
+		}
+		return ok
+	}
 	if v.kind == kNull {
 		return s.Nullable
 	}
@@ -316,6 +362,18 @@ func refValid(s *zzSchema, v aval) bool {
 			return false
 		}
 		ok := true
+		if s.Format == "uint64" { // canonical decimal (the builder only writes digits; no leading zero unless "0")
+			if len(v.str) == 0 {
+				return false
+			}
+			for _, c := range v.str {
+				ok = zz.And(ok, zz.And(c >= '0', c <= '9'))
+			}
+			if len(v.str) > 1 {
+				ok = zz.And(ok, v.str[0] != '0')
+			}
+			return ok
+		}
 		n := runes(v.str)
 		if s.MinLen != nil {
 			ok = zz.And(ok, n >= *s.MinLen)
@@ -370,6 +428,19 @@ func refValid(s *zzSchema, v aval) bool {
 			}
 			if pr.Required && !found {
 				ok = false
+			}
+		}
+		if s.Addl != nil {
+			for i, k := range v.keys {
+				declared := false
+				for _, pr := range s.Props {
+					if pr.Name == k {
+						declared = true
+					}
+				}
+				if !declared {
+					ok = zz.And(ok, refValid(s.Addl, v.vals[i]))
+				}
 			}
 		}
 		if s.AddlFalse {
@@ -465,6 +536,34 @@ func HAccept(idx, variant int) {
 	}
 }
 
+// hasMap: some object of the schema has a map part; Go maps are iterated in random order, so two encodings of
+// one value may order those members differently.
+func hasMap(s *zzSchema, depth int) bool {
+	if s == nil || depth > 3 {
+		return false
+	}
+	if s.Ref != 0 {
+		s = zzSchemas[s.Ref-1]
+	}
+	if s.Addl != nil {
+		return true
+	}
+	if hasMap(s.Items, depth+1) {
+		return true
+	}
+	for _, pr := range s.Props {
+		if hasMap(pr.S, depth+1) {
+			return true
+		}
+	}
+	for _, alt := range s.OneOf {
+		if hasMap(alt, depth+1) {
+			return true
+		}
+	}
+	return false
+}
+
 // HRound (C04): an accepted instance re-encodes to JSON that decodes and validates again, re-encodes
 // to the same bytes, and denotes the same JSON value as the original text.
 func HRound(idx, variant int) {
@@ -485,7 +584,12 @@ func HRound(idx, variant int) {
 	zz.Cover("round-trip-completed")
 	e2 := &jx.Encoder{}
 	v2.(zzEncoder).Encode(e2)
-	zz.Assert(zz.EqBytes(enc, e2.Bytes()), "decode(encode(v)) encodes to the same bytes (equal value)")
+	if hasMap(zzSchemas[idx], 0) {
+		same2, err2 := ogenjson.Equal(enc, e2.Bytes())
+		zz.Assert(zz.And(err2 == nil, same2), "decode(encode(v)) encodes to the same JSON value (map members in any order)")
+	} else {
+		zz.Assert(zz.EqBytes(enc, e2.Bytes()), "decode(encode(v)) encodes to the same bytes (equal value)")
+	}
 	if !b.extra {
 		same, err := ogenjson.Equal(b.out, enc)
 		zz.Assert(zz.And(err == nil, same), "the encoding denotes the same JSON value as the decoded text (absent/null/present and array contents preserved)")
